@@ -393,6 +393,22 @@ fn limits(run: &Arc<Run>) {
         for (size, n) in shapes {
             cases.push((format!("shape-{}x{}", n, size), (0..n).map(|i| (TypeId::Ordinal(2), i as u16, (0..size).map(|w| (i * 31 + w) as i32).collect())).collect()));
         }
+        // snapshots at the size limit filled with values of each encoded length: the byte form
+        // of the same snapshot is between a quarter and five quarters of its int form
+        for size in [14usize, 15, 63, 1000, 4095, 16380] {
+            // as many items of that size as fit (8 bytes of header, 8 + 4*size per item, 65536 in
+            // all, at most 1024 items), then one more that takes up what is left
+            let n = ((65536 - 8) / (8 + 4 * size)).min(1024);
+            let left = 65536 - 8 - n * (8 + 4 * size);
+            let filler: Option<usize> = if n < 1024 && left >= 8 { Some((left - 8) / 4) } else { None };
+            for (fname, fill) in [("1-byte", 5i32), ("2-byte", 8191), ("3-byte", -(1 << 20)), ("4-byte", (1 << 27) - 1), ("5-byte-min", i32::MIN), ("5-byte-max", i32::MAX), ("5-byte", 1 << 27)] {
+                let mut items: Vec<(TypeId, u16, Vec<i32>)> = (0..n).map(|i| (TypeId::Ordinal(2), i as u16, (0..size).map(|w| if (i + w) % 7 == 6 { fill.wrapping_sub(1) } else { fill }).collect())).collect();
+                if let Some(f) = filler {
+                    items.push((TypeId::Ordinal(3), 0, vec![fill; f]));
+                }
+                cases.push((format!("full-{}x{}-{}", n, size, fname), items));
+            }
+        }
         for (name, items) in cases {
             run.add_evals(1);
             let r = vp_core::catch(|| -> Result<(), String> {
